@@ -7,6 +7,7 @@
 -/
 import DDV.Gen.Lemmas.DslHirConfig
 import DDV.Gen.Lemmas.DslPerm
+import DDV.Gen.Lemmas.DslUnique
 import DDV.Props.C16Tree
 
 namespace DDV.Props.C16Hir
@@ -113,6 +114,34 @@ theorem block_items_order_irrelevant {items items' : List HBlockItem} (hp : item
     (hu : HirPerm.BlockUnique items) :
     hirBlockOffset items = hirBlockOffset items' ∧ hirBlockRepeat items = hirBlockRepeat items' :=
   HirPerm.hirBlockItems_perm hp hu
+
+
+/-- **Written in any order, the items of a register body lower to what `lowerDsl` says**: the rendered body carries
+    each kind of item at most once (`regItems_unique`), so every permutation of it is lowered like the rendered one. -/
+theorem register_any_item_order (g : GlobalConfig) (c : ACommon) (access : Option Access)
+    (bo : Option DDV.Bits.ByteOrder) (bito : Option DDV.Bits.BitOrder) (address : Int) (size : Nat)
+    (reset : Option ResetValue) (rep : Option Repeat) (abo aao : Option Bool) (fields : List AField)
+    (items' : List HRegItem) (hp : (Dsl.rRegItems access bo bito address size reset rep abo aao).Perm items')
+    (hres : HirLemmas.ResetOk reset) (hf : ∀ f ∈ fields, HirLemmas.FieldOk f) :
+    hirObj g (.register (Dsl.rAttrs c.cfg c.description) c.name items' (fields.map Dsl.rField)) =
+      dslObj g (.register c access bo bito address size reset rep abo aao fields) := by
+  rw [← register_render g c access bo bito address size reset rep abo aao fields hres hf]
+  unfold Dsl.rObj hirObj
+  rw [HirPerm.hirRegister_perm g _ _ _ hp (regItems_unique ..)]
+
+
+/-- … and so do the items of a command body (the extended form). -/
+theorem command_any_item_order (g : GlobalConfig) (c : ACommon) (address : Int) (bo : Option DDV.Bits.ByteOrder)
+    (bito : Option DDV.Bits.BitOrder) (si so : Option Nat) (rep : Option Repeat) (abo aao : Option Bool)
+    (fin fout : Option (List AField)) (items' : List HCmdItem)
+    (hp : (Dsl.rCmdItems address bo bito si so rep abo aao).Perm items')
+    (hi : ∀ f ∈ fin.getD [], HirLemmas.FieldOk f) (ho : ∀ f ∈ fout.getD [], HirLemmas.FieldOk f) :
+    hirObj g (.command (Dsl.rAttrs c.cfg c.description) c.name (some (.extended items'
+      (fin.map (·.map Dsl.rField)) (fout.map (·.map Dsl.rField))))) =
+      dslObj g (.command c false address bo bito si so rep abo aao fin fout) := by
+  rw [← command_render g c false address bo bito si so rep abo aao fin fout hi ho]
+  unfold Dsl.rObj hirObj
+  rw [HirPerm.hirCommand_perm g _ _ _ _ hp (cmdItems_unique ..)]
 
 /-- Non-vacuity: a three-item register body meets `RegUnique`. -/
 example : HirPerm.RegUnique [HRegItem.address ⟨false, 3⟩, .sizeBits ⟨false, 8⟩, .access .ro] := by
